@@ -358,7 +358,41 @@ def reaches_call(ctx, cls, func, name, seen, depth=0):
     return False
 
 
+FLAG_WRITERS = {
+    # attribute -> {function name: allowed constant values (None = any)}
+    '_closed': {'__init__': {False}, '_release_child': {True}},
+    '_socket_closed': {'__init__': {False}, '_release_child': {True}, 'enqueue': {True}, '_fetch_results': {True}},
+    '_counter': {'__init__': None, '_init_child': None, '_send_result': None},
+    '_stop': {'__init__': {False}, '_init_child': {False}, 'close': {True}, '_release_child': {True}},
+}
+
+
+def check_flag_writers(ctx, cls):
+    n = 0
+    for c in cls.mro():
+        if isinstance(c, str):
+            continue
+        for f in c.methods.values():
+            for st in walk_local(f.node):
+                targets = st.targets if isinstance(st, ast.Assign) else ([st.target] if isinstance(st, ast.AugAssign) else [])
+                for t in targets:
+                    for el in (t.elts if isinstance(t, ast.Tuple) else [t]):
+                        if is_self_attr(el) and el.attr in FLAG_WRITERS:
+                            n += 1
+                            allowed = FLAG_WRITERS[el.attr].get(f.name, 'no')
+                            val = st.value.value if isinstance(getattr(st, 'value', None), ast.Constant) else '?'
+                            ok = allowed != 'no' and (allowed is None or val in allowed)
+                            ctx.check('R4', f'{f.short}: `{norm(st)}` is one of the known updates of the stream state', ok, f.short, f'unexpected-state-update:{el.attr}={val}@{f.name}',
+                                      f'{f.short} sets self.{el.attr} (`{norm(st)}`) outside the protocol: '
+                                      + {'_closed': 'a closed worker accepts enqueues again (inputs written behind the stop token are lost) or an open one refuses them',
+                                         '_socket_closed': 'the closed-connection state of the worker is wrong', '_counter': 'the result counter no longer equals the number of delivered results',
+                                         '_stop': 'the input loop stops early or never stops'}[el.attr], where=loc(f, st))
+    return n
+
+
 def check_ownership(ctx, cls):
+    n_fw = check_flag_writers(ctx, cls)
+    ctx.floor(f'{cls.name}: stream-state updates', n_fw, 5)
     lc = lifecycle(ctx, cls)
     if lc.kind == 'remote':
         return
